@@ -163,6 +163,20 @@ CLAIMS = {
         "Grid values only; interpolated waveforms whose points coincide after rounding are a don't-care class.",
         "DESIGN.md §3 C16",
     ),
+    "C19": (
+        "exploration",
+        "exhaustive enumeration of small coordinate sets in every permutation, with every trap selection, qubit-id "
+        "assignment, mapping order and weight vector",
+        "2553 coordinate sets (every subset of size 1-3 of a 21-point 2D grid and an 18-point 3D grid built from "
+        "{-1,-1e-9,0,1,1+4e-7,1+6e-7,2}, plus 4/5-point sets with ties in (x,y); thorough adds all 4-subsets of 14 points) x "
+        "every permutation = 13953 layouts: id->coordinate map canonical (x, then y, then z on rounded coordinates) and "
+        "identical across permutations; ==, hash and static_hash order independent; every ordered selection of <= 3 trap ids "
+        "with unsorted qubit ids places each qubit exactly on its trap and is inverted by get_traps_from_coordinates (rounded "
+        "and raw coordinates); mappable registers built with every insertion order keep the declared order; detuning maps "
+        "given in permuted order give each qubit its trap's weight, 0 off-trap, sorted weights aligned.",
+        "Grid values only; sets whose coordinates coincide after rounding must be refused or numbered consistently.",
+        "DESIGN.md §3 C19",
+    ),
 }
 
 PENDING_REASON = "check not built yet in this round (design in DESIGN.md §3); nothing is claimed for it"
